@@ -12,3 +12,155 @@ RULE = ("all one-rule monotone grammars up to a node bound x all inputs over {a,
         "distinct = distinct case text")
 CORRESPONDENCE = "engine model (coq/Engine.v, eng_expected) = implementation on the projection of this property"
 FAST = 4
+
+
+# ---------------------------------------------------------------- Evaluate clause (flags bit 2)
+# "parsley.Evaluate, given an interpreter for every non-terminal, returns a value or an error instead of panicking":
+# grammars whose sequences carry interpreters; the driver appends the part Ev [Evaluate(Sentence(root)); Evaluate(root)].
+import gramgen as G
+
+EV_TERMS = [('rune', G.A), ('rune', G.B), ('rune', G.A), ('rune', G.B), G.LIT_INTEGER, G.LIT_INTEGER, G.LIT_STRING, G.LIT_BOOL,
+            G.LIT_NIL, G.LIT_CHAR, G.lit_op(","), G.lit_op("+"), G.lit_word("x")]
+EV_OPS = G.MONO + ['choice', 'seqtry', 'sfoa', 'many', 'sepby', 'name', 'nseq', 'suppress', 'single', 'seq', 'many', 'sepby']
+# no Float terminal: the harness input has dummy converters (a lexeme such as 1.5e2071 overflows strconv.ParseFloat, the dummy
+# converter accepts it); float64 / time.Duration values are still rendered ("fl" / "du") should a grammar produce them
+EV_FRAGMENTS = ["1", "12", "-3", '"ab"', '""', "true", "false", "null", "x", "'a'", ",", "+", "a", "b", "a", "b", "ab"]
+
+
+def min_children(kind, n):
+    """mirror of EngineOracles.min_children (used only to CHOOSE interpreters; the oracle decides in Coq)"""
+    if kind == 'SeqOf':
+        return n
+    if kind == 'SeqTry':
+        return 1
+    if kind == 'SeqFirstOrAll':
+        return min(1, n)
+    return 0 if kind[1] else 1
+
+
+def bind_interpreters(rng, e, partial):
+    """every sequence gets an interpreter: Nil, Array, a user interpreter, Select(i) in range; with partial=True some get
+    none, Object, or Select out of range (a panic is then the documented behaviour)"""
+    t = e[0]
+    rec = lambda x: bind_interpreters(rng, x, partial)
+    if t in ('any', 'choice'):
+        return (t, [rec(x) for x in e[1]])
+    if t in ('memo', 'name', 'ltrim', 'rtrim'):
+        return (t, e[1], rec(e[2]))
+    if t in ('opt', 'suppress', 'single'):
+        return (t, rec(e[1]))
+    if t != 'seq':
+        return e
+    _, kind, _, single, name, ps = e
+    m = min_children(kind, len(ps))
+    pool = [('IUser', rng.randrange(1, 9)), ('IUser', rng.randrange(1, 9)), 'INil', 'IArray']
+    if m > 0:
+        pool += [('ISelect', rng.randrange(m))] * 3
+    ip = rng.choice(pool)
+    if partial and rng.random() < 0.35:
+        ip = rng.choice(['INone', ('ISelect', m), ('ISelect', len(ps) + rng.randrange(2)), 'IObject'])
+    return ('seq', kind, ip, single, name, [rec(x) for x in ps])
+
+
+def ev_input(rng, rules, root):
+    pool = []
+    for e in __import__("itertools").chain(*[G.walk(r) for r in rules + [root]]):
+        pool += G.lit_examples(e)
+    out = ""
+    for _ in range(rng.randrange(6)):
+        out += rng.choice(pool) if pool and rng.random() < 0.75 else rng.choice(EV_FRAGMENTS)
+    return list(out.encode())
+
+
+def json_object_like(rng):
+    """value = string | integer | bool | null | '[' sep_by(value, ',') ']' (Array) | '{' sep_by(key ':' value, ',') '}' (Object):
+    maps (rendered sorted by key, a later duplicate key wins), nested lists, Select(1) around both"""
+    value = ('ref', 0)
+    arr = ('seq', 'SeqOf', ('ISelect', 1), False, None,
+           [G.lit_op("["), ('seq', ('SSepBy', True), 'IArray', False, None, [value, G.lit_op(",")]), G.lit_op("]")])
+    kv = ('seq', 'SeqOf', rng.choice(['INil', ('IUser', 7), 'INone']), False, None, [G.LIT_STRING, G.lit_op(":"), value])
+    obj = ('seq', 'SeqOf', ('ISelect', 1), False, None,
+           [G.lit_op("{"), ('seq', ('SSepBy', True), 'IObject', False, None, [kv, G.lit_op(",")]), G.lit_op("}")])
+    alts = [G.LIT_STRING, G.LIT_INTEGER, G.LIT_BOOL, G.LIT_NIL, arr, obj]
+    return [('memo', 1, (rng.choice(['choice', 'any']), alts))], ('ref', 0)
+
+
+def json_text(rng, depth=2):
+    r = rng.random()
+    if depth <= 0 or r < 0.45:
+        return rng.choice(["1", "-7", '"a"', '"b"', '""', "true", "false", "null", "12"])
+    if r < 0.7:
+        return "[" + ",".join(json_text(rng, depth - 1) for _ in range(rng.randrange(4))) + "]"
+    return "{" + ",".join('"%s":%s' % (rng.choice("abca"), json_text(rng, depth - 1)) for _ in range(rng.randrange(4))) + "}"
+
+
+def eval_cases(rng, n_total, n_partial, n_json):
+    out = []
+    for partial, n in ((False, n_total), (True, n_partial)):
+        for i in range(n):
+            terms = None if i % 3 == 0 else EV_TERMS
+            rules, root = G.rand_grammar(rng, EV_OPS if i % 4 else G.MONO, max_rules=2, depth=3, terminals=terms)
+            if engcommon.exponential_shape(rules, root):
+                continue
+            rules = [bind_interpreters(rng, r, partial) for r in rules]
+            root = bind_interpreters(rng, root, partial)
+            fl = engcommon.flags_for(rules, root, False) | 4
+            for _ in range(3):
+                w = G.rand_input(rng, 5) if terms is None else ev_input(rng, rules, root)
+                out.append((G.case_text(rules, root, w, offset=rng.choice([1, 1, 2, 7]), flags=fl),
+                            {"stream": "evaluate-documented-panics" if partial else "evaluate-total",
+                             "unproductive": engcommon.unprod(rules, root)}))
+    for i in range(n_json):
+        rules, root = json_object_like(rng)
+        fl = engcommon.flags_for(rules, root, False) | 4
+        for _ in range(3):
+            w = json_text(rng)
+            if rng.random() < 0.15:
+                w = w[:rng.randrange(len(w) + 1)]
+            out.append((G.case_text(rules, root, list(w.encode()), offset=rng.choice([1, 1, 7]), flags=fl),
+                        {"stream": "evaluate-json-object", "unproductive": False}))
+    # the historical defect D3 and its neighbours, always present: roots that return neither node nor error of their own
+    # (Any/Choice of not-found alternatives, SuppressError, a purely curtailed rule U -> U)
+    ab = ('any', [('rune', G.A), ('rune', G.B)])
+    sup = ('suppress', ('rune', G.A))
+    for root in (ab, ('choice', [('rune', G.A), ('rune', G.B)]), ('memo', 5, ab), ('seq', 'SeqOf', ('IUser', 1), False, None, [ab]),
+                 sup, ('seq', 'SeqOf', ('ISelect', 0), False, None, [sup]), ('opt', sup)):
+        for w in ([99], [G.A], [], [G.A, G.B]):
+            out.append((G.case_text([], root, w, flags=4), {"stream": "evaluate-total", "unproductive": False}))
+    for w in ([], [G.A]):
+        out.append((G.case_text([('memo', 1, ('ref', 0))], ('ref', 0), w, flags=4), {"stream": "evaluate-total", "unproductive": True}))
+    return out
+
+
+def generate(rng, tier):
+    if tier == "quick":
+        return engcommon.generate(rng, tier) + eval_cases(rng, 350, 140, 40)
+    return engcommon.generate(rng, tier) + eval_cases(rng, 8000, 3000, 800)
+
+
+_nontrivial_base = engcommon.nontrivial
+
+
+def nontrivial(case, obs, meta):
+    if str(meta.get("stream", "")).startswith("evaluate"):
+        return '(OT "Val"' in obs or '(OT "EErr"' in obs or '"Panic"' in obs
+    return _nontrivial_base(case, obs, meta)
+
+
+RULE = RULE + ("; Evaluate clause (flags bit 2): random grammars over all combinators except trimming, rune and literal terminals, every "
+               "sequence bound to Nil / Array / a user interpreter / Select in range (stream evaluate-total: the oracle forbids a panic), "
+               "the same with some sequences left without interpreter, bound to Object or to Select out of range (stream "
+               "evaluate-documented-panics: the oracle says nothing, model and implementation must still agree, panics included), a JSON-like "
+               "object/array grammar (maps), and the fixed roots that return neither node nor error; non-trivial there = Evaluate returned "
+               "a value, an evaluation error or panicked")
+MANIFEST = dict(MANIFEST)
+MANIFEST["technique"] += "; parsley.Evaluate run on grammars with interpreters against Top.evaluate, panic-freedom decided per grammar by interp_ok_expr"
+MANIFEST["text"] += (" Evaluate clause: C04_evaluate_outcomes, C04_evaluate_never_nil, C04_evaluate_panic_is_interpreter, C04_parse_no_panic, "
+                     "C04_interp_total_evaluates, C04_grammar_interp_total(_frag), C04_evaluate_total, C04_evaluate_sentence_total (coq/TopProofs.v): "
+                     "for a well-formed grammar whose sequences carry Nil/Array/user interpreters or Select(i) below the least number of children "
+                     "(decidable check interp_ok_expr), Evaluate returns a value or an error for every input, never a panic; and never evaluates a "
+                     "missing node for any grammar. The check calls parsley.Evaluate with the Sentence root and the bare root (recover = Panic "
+                     "observation), compares value / error text / panic with the model and requires 'no panic' whenever interp_ok_expr holds.")
+MANIFEST["note"] = ("Trusted: as C01, plus coq/Top.v (EvaluateNode, NonTerminalNode.Value, ast/interpreter) tied to the code by the same differential "
+                    "run. A user interpreter is modelled as 'evaluate all children in order, first error aborts, return the values' (the driver "
+                    "binds exactly that ast.InterpreterFunc); interpreter.Object is outside interp_ok_expr (covered for the JSON grammar by C16).")
